@@ -93,6 +93,7 @@ OPTIONS_AFFECTING_CACHE: Final = (
         "hide_error_codes",
         "many_errors_threshold",
         "custom_typing_module",
+        "test_env",
     }
 ) - {"debug_cache"}
 
